@@ -578,16 +578,45 @@ Lemma cln_list_of_string s : cln s -> Forall (fun c => bad_char c = false) (list
 Proof.
   induction s as [|c r IH]; cbn [list_of_string]; [constructor|]. intros H. apply cln_String_inv in H. destruct H. constructor; auto.
 Qed.
+Lemma high_byte_good x : (128 <= x < 256)%N -> bad_char (chr x) = false.
+Proof.
+  intros Hx. destruct (bad_char (chr x)) eqn:E; [|reflexivity]. exfalso.
+  unfold bad_char, RV.Api.Post.is_line_end in E. apply orb_true_iff in E.
+  assert (Hb : byte_of (chr x) = x) by (unfold byte_of, chr; apply N_ascii_embedding; lia).
+  destruct E as [E|E]; [apply orb_true_iff in E; destruct E as [E|E]|]; apply Ascii.eqb_eq in E; rewrite E in Hb; vm_compute in Hb; lia.
+Qed.
+Lemma cln_rune_leads_aux k s : cln s -> Forall (fun c => bad_char c = false) (rune_leads_aux k s).
+Proof.
+  revert k. induction s as [|c r IH]; intros k H; cbn [rune_leads_aux]; [constructor|].
+  apply cln_String_inv in H. destruct H as [Hc Hr]. destruct k as [|k]; [|apply IH; exact Hr].
+  assert (H239 : bad_char (chr 239) = false) by reflexivity.
+  destruct (lead_info (byte_of c)) as [[[k lo] hi]|]; [destruct (conts_ok k lo hi r)|]; constructor; auto.
+Qed.
+Lemma cln_rune_leads s : cln s -> Forall (fun c => bad_char c = false) (rune_leads s).
+Proof. apply cln_rune_leads_aux. Qed.
+Lemma cln_go_string_of_byte n : bad_char (chr n) = false -> cln (go_string_of_byte n).
+Proof.
+  intros H. unfold go_string_of_byte. destruct (n <? 128)%N.
+  - apply cln_String; [exact H|reflexivity].
+  - assert (H4 : ((n / 64) mod 4 < 4)%N) by (apply N.mod_upper_bound; lia).
+    assert (H64 : (n mod 64 < 64)%N) by (apply N.mod_upper_bound; lia).
+    remember ((n / 64) mod 4)%N as x eqn:Hx. remember (n mod 64)%N as y eqn:Hy. clear Hx Hy.
+    apply cln_String; [apply high_byte_good; lia|]. apply cln_String; [apply high_byte_good; lia|reflexivity].
+Qed.
 Lemma cln_normalize_modes m : cln m -> cln (normalize_modes m).
 Proof.
   intros H. unfold normalize_modes. pose proof (cln_m_params m H) as Hps.
   destruct (m_params m) as [|a [|b l]] eqn:E; try apply cln_nil. rewrite <- E.
-  apply cln_normalize_modes_aux; [|rewrite E; exact Hps]. apply cln_list_of_string.
+  apply cln_normalize_modes_aux; [|rewrite E; exact Hps]. apply cln_rune_leads.
   apply cln_cons_inv in Hps. destruct Hps as [_ Hps]. apply cln_cons_inv in Hps. apply Hps.
 Qed.
 
-Lemma cln_mode_chars (l : list modecmd) : cln l -> cln (string_of_list (map (fun c => chr (mc_char c)) l)).
-Proof. intros H. apply cln_string_of_list. induction H as [|md l Hmd Hl IH]; cbn [map]; constructor; [apply Hmd|exact IH]. Qed.
+Lemma cln_mode_chars (l : list modecmd) :
+  cln l -> cln (fold_right (fun c acc => go_string_of_byte (mc_char c) ++ acc) EmptyString l).
+Proof.
+  intros H. induction H as [|md l Hmd Hl IH]; cbn [fold_right]; [reflexivity|].
+  apply cln_app; [apply cln_go_string_of_byte; apply Hmd|exact IH].
+Qed.
 Lemma cln_mode_params (l : list modecmd) : cln l -> cln (List.filter (fun p => negb (is_empty p)) (map mc_param l)).
 Proof. intros H. apply cln_lfilter. apply cln_map; [|exact H]. intros md Hmd. apply Hmd. Qed.
 Lemma cln_irc_params (l : list modecmd) : cln l -> cln (irc_params l).
